@@ -318,3 +318,30 @@ func H_C16_WiringMigrations() {
 	}
 	rt.Reach("end")
 }
+
+// H_C04_WiringBankModel: trusted-base self-check. The ledger model that stands in for x/bank and
+// x/auth in every symbolic harness is compared with the real keepers of the real application on a
+// battery of concrete delegate / undelegate / send sequences (base and vesting accounts). There
+// is nothing to decide symbolically; the native face runs in the native self-check of the check.
+func H_C04_WiringBankModel() {
+	if !rtw.Static() {
+		d := rtw.BankModelDiff()
+		if d != "" {
+			println("bank model differs from the real bank:", d)
+		}
+		rt.Assert("INV.trusted-base.bank-model-agrees-with-the-real-bank", d == "")
+	}
+	rt.Reach("end")
+}
+
+// H_C20_WiringStoreModel: trusted-base self-check of the KV-store model (see rtw.StoreModelDiff).
+func H_C20_WiringStoreModel() {
+	if !rtw.Static() {
+		d := rtw.StoreModelDiff()
+		if d != "" {
+			println("store model differs from the real store:", d)
+		}
+		rt.Assert("INV.trusted-base.store-model-agrees-with-the-real-store", d == "")
+	}
+	rt.Reach("end")
+}
